@@ -198,8 +198,13 @@ check("C30", "model_checking",
       "TLA+ derivation of programs with explicit binding structure checked by TLC; every rename request replayed on the real language server and the edited program compiled and run",
       "DESIGN.md section 6 C30 and section 12")
 
+check("C29", "model_checking",
+      "DiagSync.tla: documents are sequences of top-level definitions (literal, string, reference to another definition, a definition that is a type error by itself); a notification carries one or two line-based edits (insert, delete, replace; ranges starting in column 0, the form that triggers the server's incremental AST/HIR patching); TLC explores the histories (exhaustively for single-edit notifications on documents of up to 3 definitions, by deterministic simulation for three notifications of up to two edits), checks that the text tracks the edits and emits initial document, notifications, final document and the lines a fresh analysis must flag. Each history is replayed on the real language server (`vh_els diagsync`): didOpen, then didChange + didSave per notification, a request as barrier and a client-side quiescence wait (two consecutive barriers 700 ms apart without a new publishDiagnostics for the document; the server's own background re-check runs every 500 ms); a second, fresh server opens the final text. The last diagnostics the two servers published for the document must be equal as sets (and as lists: duplicates are reported separately); the specification's error lines are the third voter.",
+      "Trusted: TLC; the quiescence protocol in harness/vh_els/src/diagsync.rs (didOpen/didSave analyse synchronously inside dispatch; the wait only has to outlast the 500 ms background poll); only histories for which the server's text equals the final text are judged (C28 covers the rest).",
+      "TLA+ model of edit histories explored by TLC; every history replayed on the real language server and compared with a fresh server on the final text",
+      "DESIGN.md section 12")
+
 NOT_APPLICABLE = {
-    "C29": "not built: the binding needs a quiescence signal for the language server's asynchronous publishDiagnostics (molc's FakeClient only blocks on the next one); without it the harness would race with the debounced background analysis and could raise false alarms (DESIGN.md section 12.7)",
     "C16": "static comparison of opcode/magic tables with external ground truth: no state or behaviour for a TLA+ specification to constrain (DESIGN.md section 7)",
     "C27": "data audit of ~150 declaration files against installed interpreters/typeshed: no behaviour to model in TLA+ (DESIGN.md section 7)",
 }
